@@ -614,9 +614,14 @@ func c09clientHelloOracle(sent []byte, ver string) string {
 
 func runC09(c *ctx) {
 	res := c.res
-	res.Rule = "real netconf.NewDriver(...).Open() + first GetConfig over sim.NCServer: the 12 cells {advertised subset of base:1.0/1.1} x {preferred none/1.0/1.1} enumerated round-robin x hello layouts of the grammar (declaration, namespace prefix, attribute text, inter-element white space incl. CR, 0-300 extra capability URIs incl. query strings / near-miss base URIs / duplicates / empty, session-id absent / 0 / 2^32-1 / 2^63-1 / beyond / leading zeros) x trailing bytes x read segmentations (whole, 1-byte, fixed, random, cut inside the delimiter) x transport read sizes 1..65535 x search depths 8..5000 x echo on/off; plus well-framed non-hello messages, an adversarial stream of malformed hellos (model of the code only) and invalid preferred-version strings. non-trivial = in-domain grammar case (theorem hypotheses hold on the observed chunks) whose hello has a prefix, an extra capability, a session-id or more than one read; distinct by case seed"
+	res.Rule = "real netconf.NewDriver(...).Open() + first GetConfig over sim.NCServer: the 12 cells {advertised subset of base:1.0/1.1} x {preferred none/1.0/1.1} enumerated round-robin x hello layouts of the grammar (declaration, namespace prefix, attribute text, inter-element white space incl. CR, 0-300 extra capability URIs incl. query strings / near-miss base URIs / duplicates / empty, session-id absent / 0 / 2^32-1 / 2^63-1 / beyond / leading zeros) x trailing bytes x read segmentations (whole, 1-byte, fixed, random, cut inside the delimiter) x transport read sizes 1..65535 x search depths 8..5000 x echo on/off; plus well-framed non-hello messages, an adversarial stream of malformed hellos (model of the code only) and invalid preferred-version strings; plus HISTORIES on one driver object (8 templates: getters before the first Open, between sessions and after Close; Open/Close/Open against servers advertising different capability sets, versions and session-ids; a failing Open followed by further Opens), each run twice (with and without the getter calls). non-trivial = in-domain grammar case (theorem hypotheses hold on the observed chunks) whose hello has a prefix, an extra capability, a session-id or more than one read; distinct by case seed"
 	if c.replay != "" {
 		f := strings.Fields(c.replay)
+		if len(f) >= 2 && f[0] == "c09hist" {
+			seed, _ := strconv.ParseUint(f[1], 10, 64)
+			c09histories(c, []c09hist{genC09hist(seed)})
+			return
+		}
 		if len(f) >= 4 && f[0] == "c09case" {
 			seed, _ := strconv.ParseUint(f[2], 10, 64)
 			cell, _ := strconv.Atoi(f[3])
@@ -667,6 +672,11 @@ func runC09(c *ctx) {
 		cases = append(cases, genC09longline(c.rng.U64(), cell))
 	}
 	c09check(c, cases)
+	hs := []c09hist{genC09histWitness()}
+	for i := 0; i < c.n(160, 4000); i++ {
+		hs = append(hs, genC09hist(c.rng.U64()))
+	}
+	c09histories(c, hs)
 	if w := res.Distribution["window-probe:total"]; w > 0 {
 		res.Note("search-window probe (candidate finding C09-W1): one-line hello longer than the search depth + delimiter + LF in ONE read: Open timed out in %d of %d probes (the property's table expected %d successes / %d NETCONF errors); the model of the code predicts the timeout in %d",
 			res.Distribution["window-probe:impl-timeout"], w, res.Distribution["window-probe:want-ok"], res.Distribution["window-probe:want-netconf"], res.Distribution["window-probe:model-timeout"])
